@@ -317,6 +317,14 @@ def verify_function(qualname, contract, schema, timeout_ms=10000, contracts=None
     body_stmts = fi.body()
     frag = contract.get("fragment")
     frag_loop = None
+    if frag is not None and "stmt_top" in frag:
+        # the contract is on ONE top-level statement of the function: the one whose source text starts with the given text
+        sel = [st for st in body_stmts if ast.unparse(st).replace('"', "'").startswith(frag["stmt_top"].replace('"', "'"))]
+        if len(sel) != 1:
+            raise Unsupported("fragment: %d top-level statements start with %r in %s" % (len(sel), frag["stmt_top"], qualname))
+        rep.fragment = "statement at line %d (`%s ...`)" % (sel[0].lineno, frag["stmt_top"][:40])
+        body_stmts = sel
+        frag = None
     if frag is not None and "before" in frag:
         # the contract is on the head of the function: every top-level statement before the one whose source text starts with the
         # given text (the function's parameters are the contract's parameters; locals assigned by the head are visible to clauses)
